@@ -1,0 +1,58 @@
+//go:build verif
+
+package interp
+
+import (
+	"go/build"
+	"io/fs"
+)
+
+// This file is only compiled with the verif build tag. It exports thin wrappers
+// around unexported functions so that an external harness can compare them,
+// function by function, with their formal models. It adds no behaviour.
+
+// VerifCtx builds a build.Context with the given GOOS, GOARCH and tags,
+// and the release tags of the default context.
+func VerifCtx(goos, goarch string, tags []string) *build.Context {
+	ctx := build.Default
+	ctx.GOOS, ctx.GOARCH = goos, goarch
+	ctx.BuildTags = append([]string(nil), tags...)
+	return &ctx
+}
+
+// VerifSkipFile exposes skipFile.
+func VerifSkipFile(ctx *build.Context, p string, skipTest bool) bool { return skipFile(ctx, p, skipTest) }
+
+// VerifBuildLineOk exposes buildLineOk; panicked reports a host panic.
+func VerifBuildLineOk(ctx *build.Context, line string) (ok, panicked bool) {
+	defer func() {
+		if r := recover(); r != nil {
+			panicked = true
+		}
+	}()
+	return buildLineOk(ctx, line), false
+}
+
+// VerifBuildOk exposes (*Interpreter).buildOk on a private copy of the context.
+func (interp *Interpreter) VerifBuildOk(ctx *build.Context, name, src string) (ok bool, tags []string, err error, panicked bool) {
+	defer func() {
+		if r := recover(); r != nil {
+			panicked = true
+		}
+	}()
+	ok, err = interp.buildOk(ctx, name, src)
+	return ok, ctx.BuildTags, err, false
+}
+
+// VerifEffectivePkg exposes effectivePkg.
+func VerifEffectivePkg(root, path string) string { return effectivePkg(root, path) }
+
+// VerifPreviousRoot exposes previousRoot.
+func VerifPreviousRoot(filesystem fs.FS, rootPath, root string) (string, error) {
+	return previousRoot(filesystem, rootPath, root)
+}
+
+// VerifPkgDir exposes (*Interpreter).pkgDir.
+func (interp *Interpreter) VerifPkgDir(goPath, root, importPath string) (string, string, error) {
+	return interp.pkgDir(goPath, root, importPath)
+}
